@@ -34,7 +34,7 @@ def minList (x : α) (xs : List α) : α := xs.foldl (fun m v => if v < m then v
 /-- `check_pin` for one assembly type -/
 def checkPin (s3 : α) (a : Asm α) : Except Err Unit :=
   if a.nRing = 0 ∨ a.pitch ≤ 0 ∨ a.diam ≤ 0 ∨ a.clad ≤ 0 then .error Err.nonPositive
-  else if a.pitch < a.diam then .error Err.pitchLtDiameter
+  else if a.pitch ≤ a.diam then .error Err.pitchLtDiameter
   else if a.diam / 2 < a.clad then .error Err.cladGtRadius
   else if a.pitch - a.diam < a.wire then .error Err.wireTooThick
   else if a.lowFidelity then .ok ()
